@@ -134,7 +134,8 @@ func c17Insts(maxrc int64) []Inst {
 		out = append(out, Inst{Pkg: "client", Fn: "VH_C17_publish", Args: []int64{1, rc}, LoopBound: 400}, Inst{Pkg: "client", Fn: "VH_C17_publish", Args: []int64{2, rc}, LoopBound: 400},
 			Inst{Pkg: "client", Fn: "VH_C17_subscribe", Args: []int64{rc}, LoopBound: 400})
 	}
-	out = append(out, Inst{Pkg: "client", Fn: "VH_C17_pubrel", Args: []int64{1}, LoopBound: 400}, Inst{Pkg: "client", Fn: "VH_C17_pubrel", Args: []int64{2}, LoopBound: 400})
+	out = append(out, Inst{Pkg: "client", Fn: "VH_C17_pubrel", Args: []int64{1}, LoopBound: 400}, Inst{Pkg: "client", Fn: "VH_C17_pubrel", Args: []int64{2}, LoopBound: 400},
+		Inst{Pkg: "client", Fn: "VH_C17_pubrel_two", LoopBound: 400})
 	return out
 }
 
@@ -145,11 +146,11 @@ func init() {
 		Asserts: []string{"C17.publish_sent", "C17.first_publish_not_dup", "C17.one_retransmission_per_timeout", "C17.retransmission_same_id", "C17.retransmission_has_dup", "C17.retransmission_same_content",
 			"C17.no_retransmission_beyond_budget", "C17.pubrec_answered_with_pubrel", "C17.pubrel_same_id", "C17.publish_returns", "C17.nil_iff_acknowledged", "C17.subscribe_fails_after_budget",
 			"C17.publish_qos2_gets_pubrec", "C17.pubrel_answered", "C17.repeated_pubrel_answered"},
-		Reach: []string{"C17.retransmission", "C17.acked", "C17.not_acked", "C17.repeated_pubrel"},
+		Reach: []string{"C17.retransmission", "C17.acked", "C17.not_acked", "C17.repeated_pubrel", "C17.repeated_pubrel_after_other_exchange"},
 		Bounds: map[string]string{
 			"publish":   "Client.Publish QoS 1 and 2 on a short topic, 2 symbolic payload bytes, RetryCount 0..1 (thorough 0..2), RetryDelay symbolic; for each datagram the gateway answers once, answers twice, or stays silent until the retry timer fires (symbolic choice per step, up to 2*(RetryCount+2) steps)",
 			"subscribe": "Subscribe with a silent gateway: RetryCount retransmissions then failure",
-			"pubrel":    "incoming QoS 2 PUBLISH, then 2..3 PUBRELs with the same message ID (symbolic)",
+			"pubrel":    "incoming QoS 2 PUBLISH, then 2..3 PUBRELs with the same message ID (symbolic); two incoming QoS 2 exchanges with distinct symbolic message IDs, sequential or interleaved, both finished, then the PUBREL of each retransmitted in either order and the first once more",
 		},
 		Outside: []string{"register / unsubscribe flows (no DUP flag in those packets)", "real-time slack"},
 	})
@@ -209,14 +210,14 @@ func init() {
 			for a := int64(0); a <= 1; a++ {
 				out = append(out, Inst{Pkg: "client", Fn: "VH_C33_active", Args: []int64{a}}, Inst{Pkg: "client", Fn: "VH_C33_sleep", Args: []int64{a}}, Inst{Pkg: "client", Fn: "VH_C33_disconnect", Args: []int64{a}})
 			}
-			out = append(out, Inst{Pkg: "client", Fn: "VH_C33_sleep", Args: []int64{2}})
+			out = append(out, Inst{Pkg: "client", Fn: "VH_C33_sleep", Args: []int64{2}}, Inst{Pkg: "client", Fn: "VH_C33_awake"})
 			return out
 		},
-		Asserts: []string{"C33.pings_while_active", "C33.ping_at_least_every_keepalive", "C33.sleep_takes_effect", "C33.no_keepalive_ping_while_asleep", "C33.sleep_not_failed_by_keepalive", "C33.disconnect_not_failed_by_keepalive", "C33.no_keepalive_ping_after_disconnect"},
-		Reach:   []string{"C33.active_done", "C33.slept", "C33.disconnected"},
+		Asserts: []string{"C33.pings_while_active", "C33.ping_at_least_every_keepalive", "C33.sleep_takes_effect", "C33.no_keepalive_ping_while_asleep", "C33.sleep_not_failed_by_keepalive", "C33.disconnect_not_failed_by_keepalive", "C33.no_keepalive_ping_after_disconnect", "C33.not_active_before_pingresp", "C33.no_keepalive_ping_while_awake"},
+		Reach:   []string{"C33.active_done", "C33.slept", "C33.disconnected", "C33.slow_awake_done"},
 		Bounds: map[string]string{
 			"client":    "real Dial with KeepAlive = 2 s: real keepaliveLoop (time.Ticker model), receive loop, transactions; RetryCount 1, RetryDelay symbolic in (0, 1 s)",
-			"scenarios": "idle for 3.5 keep-alive periods with the gateway answering every ping / none; Sleep(3 s) or Disconnect at a symbolic instant within the first 2.5 periods, with keep-alive pings answered or left in flight",
+			"scenarios": "idle for 3.5 keep-alive periods with the gateway answering every ping / none; Sleep(3 s) or Disconnect at a symbolic instant within the first 2.5 periods, with keep-alive pings answered or left in flight; a sleep cycle whose wake-up PINGREQ is answered only after a symbolic delay of 50 ms .. 2.5 keep-alive periods (no keep-alive ping while asleep or awake, Sleep then returns nil)",
 		},
 		Outside: []string{"other API calls racing with the keep-alive (Publish, Subscribe)", "pre-emptive interleavings inside Ping/Sleep", "real-time slack"},
 	})
